@@ -3,9 +3,9 @@ package main
 // Path exploration: decisions, path condition, obligations, counterexamples.
 
 import (
-	"os"
 	"fmt"
 	"go/types"
+	"os"
 	"sort"
 	"strings"
 	"time"
@@ -68,29 +68,29 @@ type pathCtx struct {
 }
 
 type harnessResult struct {
-	Harness       string                     `json:"harness"`
-	Paths         int                        `json:"paths"`
-	PathsOK       int                        `json:"paths_completed"`
-	PathsAborted  map[string]int             `json:"paths_aborted,omitempty"`
-	PathsPanicked int                        `json:"paths_panicked"`
-	Steps         int64                      `json:"ssa_instructions"`
-	Obligations   map[string]*obligationStat `json:"obligations"`
+	Harness       string                       `json:"harness"`
+	Paths         int                          `json:"paths"`
+	PathsOK       int                          `json:"paths_completed"`
+	PathsAborted  map[string]int               `json:"paths_aborted,omitempty"`
+	PathsPanicked int                          `json:"paths_panicked"`
+	Steps         int64                        `json:"ssa_instructions"`
+	Obligations   map[string]*obligationStat   `json:"obligations"`
 	Reach         map[string]map[string]uint64 `json:"reach"`
-	ReachCount    map[string]int             `json:"reach_count"`
-	Violations    []violation                `json:"violations,omitempty"`
-	EngineErrors  []string                   `json:"engine_errors,omitempty"`
-	Queries       int                        `json:"solver_queries"`
-	SolverTimeS   float64                    `json:"solver_time_s"`
-	WallS         float64                    `json:"wall_s"`
-	Unknowns      int                        `json:"solver_unknowns"`
-	Funcs         map[string]int             `json:"functions_encoded"`
-	Stubs         []string                   `json:"stubs,omitempty"`
-	Natives       map[string]int             `json:"native_models,omitempty"`
-	MaxDecisions  int                        `json:"max_decisions_on_a_path"`
-	Truncated     bool                       `json:"truncated,omitempty"`
-	CrossChecks   int                        `json:"cross_checked_obligations,omitempty"`
-	CrossUnknown  int                        `json:"cross_check_unknown,omitempty"`
-	ExpectReach   []string                   `json:"expected_reach,omitempty"`
+	ReachCount    map[string]int               `json:"reach_count"`
+	Violations    []violation                  `json:"violations,omitempty"`
+	EngineErrors  []string                     `json:"engine_errors,omitempty"`
+	Queries       int                          `json:"solver_queries"`
+	SolverTimeS   float64                      `json:"solver_time_s"`
+	WallS         float64                      `json:"wall_s"`
+	Unknowns      int                          `json:"solver_unknowns"`
+	Funcs         map[string]int               `json:"functions_encoded"`
+	Stubs         []string                     `json:"stubs,omitempty"`
+	Natives       map[string]int               `json:"native_models,omitempty"`
+	MaxDecisions  int                          `json:"max_decisions_on_a_path"`
+	Truncated     bool                         `json:"truncated,omitempty"`
+	CrossChecks   int                          `json:"cross_checked_obligations,omitempty"`
+	CrossUnknown  int                          `json:"cross_check_unknown,omitempty"`
+	ExpectReach   []string                     `json:"expected_reach,omitempty"`
 }
 
 var (
@@ -155,6 +155,7 @@ func recycleSolver2InPath() {
 		solver2.Assert(t)
 	}
 }
+
 var crossChecks, crossUnknown int
 
 // crossTime is the wall time this worker has spent in the cross-check solver for the current
